@@ -162,3 +162,47 @@ func famSigned(g *genctx, v int) *scen {
 	}
 	return s
 }
+
+// S-status: statuses as values. A package may declare a status with the same
+// message text as a base status; the two are different values, and a literal
+// in a comparison must resolve exactly like one in an assignment or a return.
+func init() {
+	allFamilies = append(allFamilies, family{"S-status", 2, famStatus})
+}
+
+func famStatus(g *genctx, v int) *scen {
+	msgs := []string{"#too much data", "#bad argument", "@end of data", "#bad receiver", "#unsupported option"}
+	msg := msgs[g.r.Intn(len(msgs))]
+	other := "#" + g.n("own")
+	m, res := g.n("stcmp"), g.n("res")
+	pick := fmt.Sprintf("    if args.k == 0 {\n        st = base.\"%s\"\n    } else if args.k == 1 {\n        st = \"%s\"\n    } else if args.k == 2 {\n        st = \"%s\"\n    } else if args.k == 3 {\n        st = base.\"$short write\"\n    }", msg, msg, other)
+	tests := fmt.Sprintf("    if st == base.\"%s\" {\n        r |= 1\n    }\n    if st == \"%s\" {\n        r |= 2\n    }\n    if st <> base.\"%s\" {\n        r |= 4\n    }\n    if st <> \"%s\" {\n        r |= 8\n    }\n    if st == \"%s\" {\n        r |= 16\n    }\n    if st.is_error() {\n        r |= 32\n    }\n    if st.is_suspension() {\n        r |= 64\n    }\n    if st.is_note() {\n        r |= 128\n    }\n    if st.is_ok() {\n        r |= 256\n    }\n    if st == ok {\n        r |= 512\n    }", msg, msg, msg, msg, other)
+	body := pick + "\n" + tests
+	if v == 1 { // the comparisons sit in a second function that receives nothing but a field
+		body = pick + "\n    this." + g.n("k") + " = args.k\n" + tests
+	}
+	s := &scen{features: []string{"status-values", "qualified-literals"}}
+	s.consts = []string{fmt.Sprintf("pub status \"%s\"", msg), fmt.Sprintf("pub status \"%s\"", other)}
+	s.fields = []string{res + " : base.u32", g.n("k") + " : base.u32"}
+	s.methods = []string{
+		fmt.Sprintf("pub func obj.%s!(k: base.u32) base.u32 {\n    var st : base.status\n    var r : base.u32\n%s\n    this.%s = r\n    return r\n}", m, body, res),
+		fmt.Sprintf("pub func obj.%s!(k: base.u32) base.status {\n    if args.k == 0 {\n        return base.\"%s\"\n    } else if args.k == 1 {\n        return \"%s\"\n    }\n    return ok\n}", g.n("stret"), msg, msg),
+		fmt.Sprintf("pub func obj.%s() base.u32 {\n    return this.%s\n}", g.n("getres"), res),
+	}
+	s.getters = []string{g.n("getres")}
+	s.drive = func(r *rand.Rand) []Call {
+		var out []Call
+		for _, k := range []uint64{0, 1, 2, 3, 4} {
+			out = append(out, Call{Method: m, Args: []Arg{iarg(k)}})
+		}
+		// returning an error from a pub status function: base first or own first
+		if r.Intn(2) == 0 {
+			out = append(out, Call{Method: g.n("stret"), Args: []Arg{iarg(2)}}, Call{Method: g.n("stret"), Args: []Arg{iarg(1)}})
+		} else {
+			out = append(out, Call{Method: g.n("stret"), Args: []Arg{iarg(2)}}, Call{Method: g.n("stret"), Args: []Arg{iarg(0)}})
+		}
+		out = append(out, Call{Method: m, Args: []Arg{iarg(1)}})
+		return out
+	}
+	return s
+}
